@@ -33,6 +33,25 @@ def norm_path(p):
     return p.replace(" ", "")
 
 
+def import_rules(rep, mod, facts, tier, tag, pred=lambda k: True):
+    """run another property's rule module and adopt the instances selected by pred as obligations of rep
+    (used where one property's behaviour rests on a routine whose contract is another property's subject)"""
+    sub = Report(rep.pid, tier)
+    mod.run(sub, facts, tier)
+    viol = {k: (m, w) for k, m, w in sub.violations}
+    n = 0
+    for k, ok, nt in sub.obligations:
+        if not pred(k):
+            continue
+        n += 1
+        m, w = viol.get(k, ("holds", None))
+        rep.ob("%s/%s" % (tag, k), ok, m, nontrivial=nt, where=w)
+    for u in sub.unmodelled:
+        if u not in rep.unmodelled:
+            rep.unmodelled.append(u)
+    return n
+
+
 class Report:
     def __init__(self, pid, tier, level="other"):
         self.pid = pid
